@@ -36,9 +36,9 @@ NAME_POOL = [
 REPORT_EXT = ('html', 'pickle', 'tex', 'F12', 'dat')
 
 SYN_OPS = ['write_html', 'write_html_all', 'write_latex', 'write_f12', 'write_f12_rc', 'write_pickle', 'dump_on_file',
-           'backup_rename', 'backup_copy', 'recycle']
+           'backup_rename', 'backup_copy', 'recycle', 'default_biogeme']
 REAL_OPS = ['estimate', 'estimate', 'recycle', 'write_html', 'write_latex', 'write_f12', 'write_pickle', 'dump_on_file',
-            'validate']
+            'validate', 'default_biogeme']
 
 
 # ----------------------------------------------------------------------------
@@ -240,7 +240,39 @@ def make_history(seed: int, i: int, real: bool = False, tier: str = 'quick') -> 
                 if seen:
                     ops[j] = 'write_html'
                 seen = True
-    return {'prepop': kind, 'ops': ops}
+    # a biogeme.toml written by the user before the history starts (must be read, never replaced)
+    return {'prepop': kind, 'ops': ops, 'user_toml': pr.random() < 0.4}
+
+
+def make_user_toml_values(seed: int, i: int) -> dict:
+    """{(name, section): value} of a user-written biogeme.toml that a default BIOGEME construction can digest
+    (the random seed and the thread count stay harmless; everything else varies)"""
+    pr = random.Random(f'c14-usertoml-{seed}-{i}')
+    import biogeme.optimization as opt
+
+    v = {
+        ('number_of_threads', 'MultiThreading'): 1,
+        ('save_iterations', 'Estimation'): False,
+        ('generate_html', 'Output'): pr.random() < 0.5,
+        ('generate_pickle', 'Output'): pr.random() < 0.5,
+        ('only_robust_stats', 'Output'): pr.random() < 0.5,
+        ('dogleg', 'TrustRegion'): pr.random() < 0.5,
+        ('infeasible_cg', 'SimpleBounds'): pr.random() < 0.5,
+        ('identification_threshold', 'Output'): 10 ** pr.uniform(-8, 2),
+        ('optimization_algorithm', 'Estimation'): pr.choice(['automatic'] + list(opt.algorithms.keys())),
+        ('bootstrap_samples', 'Estimation'): pr.randint(0, 500),
+        ('max_iterations', 'SimpleBounds'): pr.randint(1, 5000),
+        ('tolerance', 'SimpleBounds'): 10 ** pr.uniform(-12, -2),
+        ('steptol', 'SimpleBounds'): 10 ** pr.uniform(-9, -2),
+        ('second_derivatives', 'SimpleBounds'): pr.choice([0, 1, 0.0, 1.0, pr.random()]),
+        ('missing_data', 'Specification'): pr.choice([99999, -1, 0, 123456789, -99999.5]),
+        ('number_of_draws', 'MonteCarlo'): pr.randint(1, 5000),
+        ('seed', 'MonteCarlo'): pr.choice([0, 0, pr.randint(1, 2 ** 31 - 1)]),
+    }
+    if pr.random() < 0.5:  # a user file need not mention every parameter
+        keep = [k for k in v if pr.random() < 0.6 or k[0] in ('number_of_threads', 'save_iterations')]
+        v = {k: v[k] for k in keep}
+    return v
 
 
 # ----------------------------------------------------------------------------
